@@ -172,15 +172,15 @@ Proof.
 Qed.
 
 (* ---------- Language.get_unrepresentable_characters from `result = []` on ---------- *)
-Lemma src_unrepresentable_for_eq : forall encode cli chars0 l acc,
-  src_unrepresentable_tail_for encode cli chars0 acc l =
+Lemma src_unrepresentable_for_eq : forall encode cli l acc,
+  src_unrepresentable_tail_for encode cli acc l =
   match unrepresentable_scan encode cli l with
   | Ok r => PRet (acc ++ r)
   | Err _ => PNone
   | Crash c => PRaise (PForeign c)
   end.
 Proof.
-  intros encode cli chars0 l; induction l as [|ch r IH]; intros acc; cbn [src_unrepresentable_tail_for unrepresentable_scan].
+  intros encode cli l; induction l as [|ch r IH]; intros acc; cbn [src_unrepresentable_tail_for unrepresentable_scan].
   - rewrite app_nil_r. reflexivity.
   - destruct (encode ch) as [[]|[]|c]; [apply IH| |reflexivity].
     cbv zeta. destruct cli; [reflexivity|].
